@@ -31,6 +31,9 @@ def suspects():
     gs.append((Grammar("amb_unit", terms("a b"), [NT("S", [A("X"), A("Y")], pub=True), NT("X", [A("a", "b")]), NT("Y", [A("a", "Z")]), NT("Z", [A("b")])]), "ambiguous"))
     # unambiguous but not LR(1) (needs two tokens of lookahead)
     gs.append((Grammar("lr2", terms("a b c"), [NT("S", [A("X", "a", "a"), A("Y", "a", "b")], pub=True), NT("X", [A("c")]), NT("Y", [A("c")])]), "not_lr1"))
+    # reduce/reduce whose colliding lookahead reaches the two reductions from two different states (outer follow vs inner first)
+    gs.append((Grammar("lr2_outer", terms("p z x"), [NT("S", [A("A", "x")], pub=True), NT("A", [A("p", "C"), A("p", "B", "D")]), NT("B", [A("z")]), NT("C", [A("z")]), NT("D", [A("x")])]), "not_lr1"))
+    gs.append((Grammar("lr2_outer3", terms("p q z x y"), [NT("S", [A("A", "x"), A("q", "A", "y")], pub=True), NT("A", [A("p", "C"), A("p", "B", "D")]), NT("B", [A("z")]), NT("C", [A("z")]), NT("D", [A("x")]), ]), "not_lr1"))
     gs.append((Grammar("lr2_b", terms("x y z"), [NT("S", [A("P", "x", "y"), A("Q", "x", "z")], pub=True), NT("P", [A("z"), A("P", "z")]), NT("Q", [A("z"), A("Q", "z")])]), "not_lr1"))
     return gs
 
@@ -189,6 +192,20 @@ def run(tier):
         if kind == "ambiguous" and not ambiguous:
             inconclusive.append("%s: marked ambiguous in the corpus but no witness within %d tokens" % (g.name, n))
         if ambiguous or kind == "not_lr1":
+            # the same grammar under permutations of its nonterminal names (constructions order states/conflicts by name)
+            import itertools, random
+            from corpus import sugar
+            names = [x.name for x in g.nts]
+            perms = [p for p in itertools.permutations(names) if list(p) != names]
+            random.Random(K.seed() + 5).shuffle(perms)
+            for pi, perm in enumerate(perms[:(5 if tier == "quick" else 23)]):
+                g2 = sugar.rename_grammar(g, dict(zip(names, perm)), "%s_p%d" % (g.name, pi))
+                v2 = verdicts(g2)
+                samples.append({"grammar": g2.name, "renaming": dict(zip(names, perm)), "generator": v2})
+                for algo, verdict in v2.items():
+                    if verdict == "accept":
+                        violations.append(("accepts:%s:%s:%s" % (g.name, "".join(perm), algo), "%s grammar %s with nonterminals renamed %s is ACCEPTED under %s" %
+                                           ("ambiguous" if ambiguous else "LR(2)", g.name, dict(zip(names, perm)), algo), {"grammar": G.to_lalrpop(g2), "algorithm": algo, "verdicts": v2}))
             for algo, verdict in v.items():
                 if verdict == "accept":
                     violations.append(("accepts:%s:%s" % (g.name, algo), "%s grammar %s is ACCEPTED under %s (a parser was emitted for a non-deterministic grammar)" %
